@@ -76,8 +76,7 @@ class Net:
         t.killed = True
         for s in list(self.sockets):
             if s.owner is t: s.vanish()
-        if t.started_:
-            t.sem.release(); self.main_sem.acquire()
+        # the thread is simply never scheduled again (a killed process runs no clean-up code); it is unwound at the end of the path
 
     def _lt(self, a, b):
         r = a < b
